@@ -1,7 +1,7 @@
 #!/venv/bin/python
 """Mechanical behaviour-preserving rewrites of every anchor file, applied as in-memory overlays; all 20 quick checks must stay silent.
 
-    tools/mech_twins.py [format|rename|ret_temp|cond_temp|guard_continue|swap_else|all] [PID ...]
+    tools/mech_twins.py [format|rename|ret_temp|cond_temp|guard_continue|swap_else|lit_ctor|len_zero|in_keys|else_after_return|early_return|all] [PID ...]
 
 format          ast.unparse(ast.parse(src)): layout, quotes, comments
 rename          every local of every function gets a new name
@@ -160,7 +160,103 @@ def t_swap_else(tree):
     return n
 
 
-TRANSFORMS = [("format", t_format), ("rename", t_rename), ("ret_temp", t_ret_temp), ("cond_temp", t_cond_temp), ("guard_continue", t_guard_continue), ("swap_else", t_swap_else)]
+def t_lit_ctor(tree):
+    n = 0
+
+    class T(ast.NodeTransformer):
+        def visit_Call(self, node):
+            nonlocal n
+            self.generic_visit(node)
+            if isinstance(node.func, ast.Name) and not node.args and not node.keywords:
+                if node.func.id == "dict":
+                    n += 1
+                    return ast.copy_location(ast.Dict(keys=[], values=[]), node)
+                if node.func.id == "list":
+                    n += 1
+                    return ast.copy_location(ast.List(elts=[], ctx=ast.Load()), node)
+            return node
+    T().visit(tree)
+    return n
+
+
+def _bool_positions(tree):
+    for x in ast.walk(tree):
+        if isinstance(x, (ast.If, ast.While, ast.IfExp)):
+            yield x, "test"
+        elif isinstance(x, ast.UnaryOp) and isinstance(x.op, ast.Not):
+            yield x, "operand"
+        elif isinstance(x, ast.BoolOp):
+            for i in range(len(x.values)):
+                yield x, ("values", i)
+
+
+def t_len_zero(tree):
+    n = 0
+    for holder, field in list(_bool_positions(tree)):
+        e = getattr(holder, field) if isinstance(field, str) else holder.values[field[1]]
+        if isinstance(e, ast.Compare) and len(e.ops) == 1 and isinstance(e.left, ast.Call) and isinstance(e.left.func, ast.Name) and e.left.func.id == "len" and len(e.left.args) == 1 \
+                and isinstance(e.comparators[0], ast.Constant) and e.comparators[0].value == 0:
+            x = e.left.args[0]
+            if isinstance(e.ops[0], ast.Eq):
+                new = ast.UnaryOp(op=ast.Not(), operand=x)
+            elif isinstance(e.ops[0], (ast.Gt, ast.NotEq)):
+                new = x
+            else:
+                continue
+            ast.copy_location(new, e)
+            if isinstance(field, str):
+                setattr(holder, field, new)
+            else:
+                holder.values[field[1]] = new
+            n += 1
+    return n
+
+
+def t_in_keys(tree):
+    n = 0
+    for c in [x for x in ast.walk(tree) if isinstance(x, ast.Compare)]:
+        if len(c.ops) == 1 and isinstance(c.ops[0], (ast.In, ast.NotIn)):
+            r = c.comparators[0]
+            if isinstance(r, ast.Call) and isinstance(r.func, ast.Attribute) and r.func.attr == "keys" and not r.args and not r.keywords:
+                c.comparators[0] = r.func.value
+                n += 1
+    return n
+
+
+def t_else_after_return(tree):
+    """if c: ...return/raise... else: B   ->   if c: ...return/raise... ; B"""
+    from sa.model import terminates
+    n = 0
+    for holder, field, lst in list(_blocks(tree)):
+        i = 0
+        while i < len(lst):
+            st = lst[i]
+            if isinstance(st, ast.If) and st.orelse and not (len(st.orelse) == 1 and isinstance(st.orelse[0], ast.If)) and terminates(st.body):
+                rest = st.orelse
+                st.orelse = []
+                lst[i + 1:i + 1] = rest
+                n += 1
+            i += 1
+    return n
+
+
+def t_early_return(tree):
+    """def f(): ...; if c: A      ->   def f(): ...; if not c: return; A      (the if is the last statement of a function, no else)"""
+    n = 0
+    for fn in [x for x in ast.walk(tree) if isinstance(x, FUNC_TYPES)]:
+        last = fn.body[-1]
+        if isinstance(last, ast.If) and not last.orelse and len(fn.body) >= 1 and not any(isinstance(x, (ast.Yield, ast.YieldFrom)) for x in ast.walk(fn)) \
+                and not any(isinstance(x, ast.NamedExpr) for x in ast.walk(last.test)):
+            g = ast.If(test=_neg(last.test), body=[ast.Return(value=None)], orelse=[])
+            ast.copy_location(g, last)
+            ast.copy_location(g.body[0], last)
+            fn.body = fn.body[:-1] + [g] + last.body
+            n += 1
+    return n
+
+
+TRANSFORMS = [("format", t_format), ("rename", t_rename), ("ret_temp", t_ret_temp), ("cond_temp", t_cond_temp), ("guard_continue", t_guard_continue), ("swap_else", t_swap_else),
+              ("lit_ctor", t_lit_ctor), ("len_zero", t_len_zero), ("in_keys", t_in_keys), ("else_after_return", t_else_after_return), ("early_return", t_early_return)]
 
 
 def overlay_for(fn):
